@@ -28,7 +28,8 @@ V = [-1.0, 0.0, 1.0, 1.04, 2.0]
 V4 = [-1.0, 0.0, 1.0, 1.04]
 INF = float("inf")
 TOLS = [0.0, 0.05, 1.5, INF]
-PERIODS = [(1, 1), (1, 2), (1, 3), (2, 1), (2, 2), (2, 3)]
+PERIODS = [(1, 1), (1, 2), (1, 3), (2, 1), (2, 2), (2, 3), (3, 2)]
+PERIODS_THOROUGH = PERIODS + [(4, 3), (5, 2), (3, 1)]
 
 
 def bound(tier):
@@ -255,7 +256,7 @@ def run_item(item):
         for rest in itertools.product(vals, repeat=L - len(fixed)):
             seq = tuple(fixed) + rest
             for patience in range(1, item["pmax"] + 1):
-                for (Pe, Ps) in PERIODS:
+                for (Pe, Ps) in (PERIODS if item.get("pmax", 3) <= 3 and "second" not in item else PERIODS):
                     for crit in ("relative", "absolute", "variance"):
                         if crit == "variance" and kind == "metric":
                             continue
